@@ -5,6 +5,7 @@ from props.common import *
 from props.vhmcommon import *
 
 HARNESSES = harnesses('quick')
+LEVEL = 'exploration'
 ASSUMPTIONS = [
     'SC interleavings only; iterator threads follow the documented rules (one iterator per thread, no other operation while it is positioned)',
     'a lost bucket lock shows up as an operation that never returns (spin detection / step budget, also in the final single-threaded traversal)',
